@@ -61,7 +61,18 @@ def behaviours(ctx, n, depth):
 
 
 def _replay(b):
-    return session_rp.replay(b)
+    """One behaviour replayed on real objects; a replay whose group call does not come back (a forked pool worker lost) is repeated once."""
+    import multiprocessing
+    import pool_tv
+    for attempt in (0, 1):
+        try:
+            with pool_tv.time_limit(400):
+                return session_rp.replay(b)
+        except pool_tv.PoolTimeout:
+            for ch in multiprocessing.active_children():
+                ch.terminate()
+            if attempt:
+                raise
 
 
 def run_rp(ctx, pid_prefixes, n, depth):
